@@ -170,7 +170,8 @@ static int run_c04(uint64_t seed, long rows) {
   for (long row = 0; row < rows; ++row) {
     const int q = row < 60 ? 1 + (int)(row % 30) : r.range(1, 30);
     const bool pos_under_test = r.coin(1, 4);
-    const int nc = pos_under_test ? 3 : r.range(1, 4);
+    // 12 / 16 components: kd-tree coding of clouds with 16 or more dimensions in total takes a different level policy
+    const int nc = pos_under_test ? 3 : (r.coin(1, 6) ? (r.coin() ? 12 : 16) : r.range(1, 4));
     const GeometryAttribute::Type type = pos_under_test ? GeometryAttribute::POSITION : (nc == 2 && r.coin() ? GeometryAttribute::TEX_COORD : GeometryAttribute::GENERIC);
     RowOpt ro = gen_rowopt(r);
     // the constrained multi-parallelogram encoder (default at speeds 0/1) sizes an entropy-tracker histogram by the largest symbol:
@@ -203,22 +204,26 @@ static int run_c04(uint64_t seed, long rows) {
       erange = snap(erange);
       if (!okp || erange <= 0 || origin[0] + erange < offset + mag) { row += 0; }
     }
-    Built b = build(r, ro.mode >= 2, type, nc, vals, r.coin(1, 3));
+    // half of the non-position rows carry separately quantised float positions next to the attribute under test and are decoded a third time
+    // with the POSITION transform skipped ("xd2"): an unrelated decoder option must not change what the attribute decodes to
+    const bool float_aux = !pos_under_test && r.coin();
+    Built b = build(r, ro.mode >= 2, type, nc, vals, r.coin(1, 3), float_aux);
     Encoded e = encode_row(b, ro, q, use_explicit, origin, erange, 0);
-    View vn, vs;
-    if (e.ok) { vn = view(e, type, nc, np, false); vs = view(e, type, nc, np, true); }
+    View vn, vs, vo;
+    if (e.ok) { vn = view(e, type, nc, np, false); vs = view(e, type, nc, np, true); if (float_aux) vo = view(e, type, nc, np, false, (int)GeometryAttribute::POSITION); }
     out.begin("QRow").i("row", row).i("q", q).i("nc", nc).s("m", mn[ro.mode]).i("es", ro.es).i("pred", ro.pred).b("builtin", ro.builtin).b("expert", ro.expert)
         .i("type", (int)type).b("explicit", use_explicit).raw("origin", jf(origin)).i("erange", fbits(erange))
         .b("eok", e.ok).s("err", e.err).b("dok", vn.ok).b("skipok", vs.ok && vs.has_transform && vs.ttype == ATTRIBUTE_QUANTIZATION_TRANSFORM)
         .raw("min", jf(vs.mn)).i("range", fbits(vs.range)).i("bits", vs.bits);
-    std::string xs = "[", xd = "[", ks = "[";
+    std::string xs = "[", xd = "[", ks = "[", xo = "[";
     for (int i = 0; i < np; ++i) {
       if (i) { xs += ","; xd += ","; ks += ","; }
       xs += jf(vals[i]);
       xd += vn.ok ? jf(vn.x[i]) : "[]";
       ks += vs.ok ? jarr(vs.k[i]) : "[]";
+      if (float_aux && vo.ok) { if (i) xo += ","; xo += jf(vo.x[i]); }
     }
-    out.raw("x", xs + "]").raw("xd", xd + "]").raw("k", ks + "]").end();
+    out.b("aux", float_aux).b("other_skip_ok", !float_aux || !e.ok || vo.ok).raw("x", xs + "]").raw("xd", xd + "]").raw("k", ks + "]").raw("xd2", xo + "]").end();
   }
   return 0;
 }
@@ -301,9 +306,14 @@ static int run_c12(uint64_t seed, long scenarios) {
       // different point order per tile
       if (tile == 1) std::reverse(vals.begin(), vals.end());
       // a tight cluster first, the spread-out points last: what is coded for the early points says nothing about the late ones
+      // (the interior points of the first third are moved into a corner of the box, 0.3 % of the range wide: their quantised values and
+      // differences need fewer bytes than those of the points that follow)
       const bool clustered = r.coin(1, 3);
-      if (clustered) std::stable_sort(vals.begin(), vals.end(), [&](const std::vector<float> &a, const std::vector<float> &b) {
-        return std::abs(a[0]) + std::abs(a[1]) + std::abs(a[2]) < std::abs(b[0]) + std::abs(b[1]) + std::abs(b[2]); });
+      if (clustered) {
+        const size_t third = vals.size() / 3;
+        std::stable_partition(vals.begin(), vals.end(), [&](const std::vector<float> &a) { return std::find(border.begin(), border.end(), a) == border.end(); });
+        for (size_t i = 0; i < third && i < (size_t)ni; ++i) for (int c = 0; c < 3; ++c) vals[i][c] = origin[c] + range * 0.003f * (float)r.unit();
+      }
       RowOpt ro = gen_rowopt(r);
       ro.reuse = r.coin();
       if (q > 20 && ro.mode >= 2) { ro.es = std::max(ro.es, 2); if (ro.pred == MESH_PREDICTION_CONSTRAINED_MULTI_PARALLELOGRAM) ro.pred = MESH_PREDICTION_PARALLELOGRAM; }
